@@ -56,6 +56,9 @@ Build ==
              \/ \E v \in 1..Len(Vals) : buf' = buf \o PreB(i) \o Vals[v] /\ bstk' = Bump(i)
              \/ /\ Len(bstk) < MaxNest
                 /\ \E k \in {"O", "A"} :
+                     \* objects only as deep as the parser's max_depth allows (an array root occupies level 1):
+                     \* with a tight ParserMaxD the documents use the state array up to its last entry
+                     /\ (k = "O" => Cardinality({j \in 1..Len(bstk) : bstk[j].kind = "O"}) + (IF bstk[1].kind = "A" THEN 1 ELSE 0) < ParserMaxD)
                      /\ buf' = buf \o PreB(i) \o <<IF k = "O" THEN 64 ELSE 66>>
                      /\ bstk' = Append(Bump(i), [kind |-> k, last |-> 0])
         /\ nodes' = nodes + 1
